@@ -20,6 +20,7 @@ struct M {
   MAKE_MOCK1(g, int(int));
   MAKE_MOCK1(v, void(int));
   MAKE_MOCK1(r, int&(int));
+  MAKE_MOCK1(cr, const int&(int));
 };
 struct MV {
   static constexpr bool trompeloeil_movable_mock = true;
@@ -28,6 +29,7 @@ struct MV {
   MAKE_MOCK1(g, int(int));
   MAKE_MOCK1(v, void(int));
   MAKE_MOCK1(r, int&(int));
+  MAKE_MOCK1(cr, const int&(int));
 };
 struct MW {
   MW() = default;
